@@ -296,6 +296,27 @@ def run(tier):
                        'delimiters; ~ * : ^ planted in offending values, unknown segment ids, sender ids, control numbers); a case '
                        'is the source text; non-trivial = at least one error reported or at least two sets')
     built = common.proof_stage(res, 'C06')
+    # map-side hypotheses of ack997_revalidates (shape997, ackDefsOk, ackKeysOk, isaDefOk): regenerated from the shipped 997 and
+    # control maps on every run (tools/xack.py) and discharged by decide +kernel
+    import json
+    import subprocess
+    import sys
+    px = subprocess.run([sys.executable, os.path.join(common.VERIF, 'tools', 'xlate.py')], stdout=subprocess.PIPE, stderr=subprocess.STDOUT, text=True)
+    if px.returncode != 0:
+        raise common.Infra('xlate: ' + px.stdout[-800:])
+    side = json.load(open(os.path.join(common.WORK, 'gen', 'tables.json')))
+    okg, logg = common.lean_build(('Gen',))
+    gax = {}
+    if okg:
+        gax, gmissing, _ = common.lean_audit('C06', os.path.join('Gen', 'AuditC06.lean'))
+    for thm in side.get('ack_theorems', []):
+        res.obligations.append(thm)
+        if thm in gax and set(gax[thm]) <= common.STD_AXIOMS:
+            res.discharged.append(thm)
+        else:
+            res.broke('theorem:' + thm, 'decide +kernel no longer proves it for the shipped 997 / control maps (or non-standard axioms: %r)' % (gax.get(thm),))
+    if not side.get('ack_theorems'):
+        res.broke('theorem:Gen.M997_4010_shape997', '997.4010.xml or a control map is not among the translated maps')
     c05.pyx()
     n = 300 if tier == 'quick' else 10000
     jobs = [(common.seed(), c, False) for c in range(n)] + [(common.seed(), c, True) for c in range(n)]
